@@ -20,6 +20,20 @@ class ListV(Arr):
         raise Undecided("symbolic index into a concrete list")
 
 
+class SetV(Arr):
+    """A set described by its generators: list of (binder, class, guards, element key)."""
+    def __init__(self, gens=()):
+        self.gens = tuple(gens)
+        Arr.__init__(self, ("set",), lambda i: _unsupported("indexing a set"), name="set")
+
+    def key(self):
+        return "{" + "; ".join(sorted("%s : %s∈%s" % (k, b, c) if b else k for (b, c, k) in self.gens)) + "}"
+
+
+def _unsupported(what):
+    raise Undecided(what)
+
+
 SCALAR_BIN = {
     ("RefMul", "ref_mul"): "*", ("Mul", "mul"): "*", ("RefAdd", "ref_add"): "+", ("Add", "add"): "+",
     ("RefSub", "ref_sub"): "-", ("Sub", "sub"): "-", ("RefDiv", "ref_div"): "/", ("Div", "div"): "/",
@@ -59,6 +73,20 @@ def call(I, c, e, env):
             return I.run_fn(body_path, [PlaceRef(var, path), val], None)
         I.update(var, path, op, val, env)
         return UNIT
+    if name == "insert" and "hash::set::HashSet" in (c.get("impl_self") or ""):
+        val = I.eval(args_e[1], env)
+        var, path = I.place(args_e[0], env)
+        if not isinstance(val, Num):
+            raise Undecided("set element is not a scalar")
+        if I.loops and var not in I.loops[-1].inner_vars:
+            lc = I.loops[-1]
+            lc.effects.append((var, tuple(path), "insert", val, list(I.loop_guards_for(lc)), ()))
+            return Cond("key", "inserted")
+        cur = I.read_place(var, path, env)
+        if isinstance(cur, SetV):
+            I.update(var, path, "=", SetV(cur.gens + ((None, None, val.expr.key()),)), env)
+            return Cond("key", "inserted")
+        raise Undecided("insert into %r" % (cur,))
     if name == "push" and ("Vec" in (c.get("impl_self") or "") or "SmallVec" in (c.get("impl_self") or "")):
         val = I.eval(args_e[1], env)
         var, path = I.place(args_e[0], env)
@@ -124,6 +152,14 @@ _orig_apply = Interp.apply_summarised
 def _apply_summarised(self, var, path, op, val, lc, gs, env, binders=()):
     if op == "push":
         return _apply_push(self, var, path, val, lc, gs, env)
+    if op == "insert":
+        cur = self.read_place(var, path, env)
+        if not isinstance(cur, SetV) or gs or binders:
+            raise Undecided("conditional / nested insertion into a set")
+        k, cls = lc.binder, lc.cls
+        key = val.expr.subst({k: "§s"}).key()
+        self.update(var, path, "=", SetV(cur.gens + (("§s", str(cls), key),)), env, summarised=True)
+        return
     return _orig_apply(self, var, path, op, val, lc, gs, env, binders)
 
 
@@ -307,6 +343,12 @@ def call_values(I, c, args, e=None, env=None):
             return o.some if name == "is_some" else o.some.negate()
 
     # ---- containers
+    if name == "default" and "hash::set::HashSet" in (c.get("self_ty") or ""):
+        return SetV()
+    if name == "len" and args and isinstance(args[0], SetV):
+        return Num(Expr.atom(("call", "card", args[0].key())))
+    if name == "is_empty" and args and isinstance(args[0], Arr) and not isinstance(args[0], (ListV, SetV)):
+        return Cond("key", "empty(%s)" % (args[0].classes[0],))
     if name == "len" and args and isinstance(args[0], (Arr, Struct)):
         return size_of(I, args[0])
     if name in ("new", "with_capacity") and ("vec::Vec" in iself or "SmallVec" in iself):
